@@ -7,13 +7,18 @@ SPEC = hdr_spec(
     rule=GEN_RULE + "marks of headers on the best chain at any depth, on side branches, first headers of branches, unseen hashes, repeated marks, "
          "re-submission of marked headers, unmark + re-submission, interleaved with Clean (small prune depths), Save and Load; full dumps around every mark; "
          "non-trivial = at least 8 submissions",
-    props_file="C17")
+    props_file="C17",
+    partial_note="exclusion of the marked header and of everything built on it, and the fallback to the heaviest remaining chain, are theorems for states reached by "
+                 "submissions (C17_marked_excluded); after Clean/Save/Load (pruned or consolidated forests) they are checked by the correspondence + monitor; marks at or "
+                 "below the in-memory window are the known finding deep-mark-ineffective.")
 
 META = dict(
-    technique="Lean 4 proof (invalid-list rules for every state, idempotence, persistence merge) + model/implementation correspondence",
+    technique="Lean 4 proof (invalid-list rules for every state, idempotence, persistence merge; specification of Branches.Trim and exclusion of the marked subtree over submission histories) + model/implementation correspondence",
     text="Theorems for every repository state: while a hash is in the invalid list no submission of it is ever added (and it is answered exactly 'marked invalid' when "
          "no earlier rule refuses); marking records the hash, is idempotent, and for an unknown hash changes nothing but the list (in memory and storage); unmarking removes it; "
-         "Save writes the list and Load installs storage's list merged with the configured hashes. Exclusion of descendants from the best chain / fallback to the heaviest "
-         "remaining chain are checked on the implementation by the monitor at every dump (partial: not yet a theorem).",
+         "Save writes the list and Load installs storage's list merged with the configured hashes. For every state reached by submissions from genesis (C17_marked_excluded, C17_best_chain_excludes): after a successful mark of a held header the chain of NO "
+         "tracked branch - in particular the reported best chain - passes through the marked header (hence nothing built on it is reported either: Branches.Trim drops exactly the "
+         "branches hanging, directly or through other branches, off the trimmed part - fold specification trimFold_spec), and the reported tip is a tracked branch of maximal "
+         "accumulated work among the remaining ones. With Clean/Save/Load before the mark the same is checked on the implementation by the monitor at every dump.",
     note=COMMON_NOTE + "Known finding: marks at or below the in-memory window (prune depth) are ineffective by design of the repository; see known_findings.txt.",
 )
